@@ -14,6 +14,7 @@ import Driver.DYNBT
 import Driver.C14
 import Driver.C01
 import Driver.C03
+import Driver.C09
 open Driver
 
 def dispatch (op : String) (args : List String) (obs : String) : Option Verdict :=
@@ -32,6 +33,7 @@ def dispatch (op : String) (args : List String) (obs : String) : Option Verdict 
   <|> (Driver.C14.handle op args obs)
   <|> (Driver.C01.handle op args obs)
   <|> (Driver.C03.handle op args obs)
+  <|> (Driver.C09.handle op args obs)
 
 def processLine (line : String) : String :=
   let line := line.trimRight
